@@ -1,6 +1,8 @@
 package main
 
 import (
+	"golang.org/x/tools/go/packages"
+	"go/token"
 	"fmt"
 	"go/ast"
 	"go/types"
@@ -85,6 +87,85 @@ func renderStateMapsFresh(c *Ctx, rule string) {
 			return true
 		})
 	}
+	// a helper that is handed the address of one of these fields (ensure(&v.m)) and assigns through it
+	for _, fd := range allFuncDecls(p) {
+		ast.Inspect(fd.Body, func(x ast.Node) bool {
+			call, ok := x.(*ast.CallExpr)
+			if !ok {
+				return true
+			}
+			for ai, a := range call.Args {
+				u, ok := ast.Unparen(a).(*ast.UnaryExpr)
+				if !ok || u.Op != token.AND {
+					continue
+				}
+				se := stateMapOf(p, u.X)
+				if se == nil {
+					continue
+				}
+				recv := info.Selections[se].Recv()
+				if pt, ok := recv.(*types.Pointer); ok {
+					recv = pt.Elem()
+				}
+				if !types.Identical(recv, st) {
+					continue
+				}
+				fn := calleeOf(info, call)
+				var hfd *ast.FuncDecl
+				for _, g := range allFuncDecls(p) {
+					if fn != nil && info.Defs[g.Name] == types.Object(fn.Origin()) {
+						hfd = g
+					}
+				}
+				if hfd == nil || hfd.Body == nil {
+					continue
+				}
+				var prms []types.Object
+				for _, prm := range hfd.Type.Params.List {
+					for _, nm := range prm.Names {
+						prms = append(prms, info.Defs[nm])
+					}
+				}
+				if ai >= len(prms) {
+					continue
+				}
+				ord := 0
+				ast.Inspect(hfd.Body, func(y ast.Node) bool {
+					as, ok := y.(*ast.AssignStmt)
+					if !ok || len(as.Lhs) != len(as.Rhs) {
+						return true
+					}
+					for i, l := range as.Lhs {
+						star, ok := ast.Unparen(l).(*ast.StarExpr)
+						if !ok {
+							continue
+						}
+						id, ok := ast.Unparen(star.X).(*ast.Ident)
+						if !ok || info.ObjectOf(id) != prms[ai] {
+							continue
+						}
+						ord++
+						n++
+						fresh := false
+						switch r := ast.Unparen(as.Rhs[i]).(type) {
+						case *ast.CompositeLit:
+							fresh = true
+						case *ast.CallExpr:
+							if mid, ok := r.Fun.(*ast.Ident); ok && mid.Name == "make" {
+								fresh = true
+							}
+						case *ast.Ident:
+							fresh = r.Name == "nil"
+						}
+						c.check(fresh, rule, fmt.Sprintf("%s|%s.%s via %s=#%d|fresh-map", funcKey(p, fd), st.Obj().Name(), se.Sel.Name, hfd.Name.Name, ord), c.pos(as.Pos()), "assigned a freshly made map",
+							fmt.Sprintf("%s, handed the address of the render state's %s map by %s, assigns %s to it: the map is then shared by every render that takes this path", hfd.Name.Name, se.Sel.Name, fd.Name.Name, types.ExprString(as.Rhs[i])))
+					}
+					return true
+				})
+			}
+			return true
+		})
+	}
 	// composite literals of the state type must not be given an existing map either
 	for _, fd := range allFuncDecls(p) {
 		ast.Inspect(fd.Body, func(x ast.Node) bool {
@@ -155,29 +236,17 @@ func onceRegistryKey(c *Ctx, rule string) {
 			if !ok {
 				return true
 			}
-			// a map that belongs to the render state: a field of it, or the result of one of its methods (lazy accessor)
-			mx := ast.Unparen(ix.X)
-			if call, isCall := mx.(*ast.CallExpr); isCall {
-				mx = ast.Unparen(call.Fun)
-			}
-			se, ok := mx.(*ast.SelectorExpr)
-			if !ok {
+			// a map that belongs to the render state: a field of it, the result of one of its methods (lazy accessor), or
+			// of a helper that is handed the field's address
+			se := stateMapOf(p, ix.X)
+			if se == nil {
 				return true
 			}
-			sel, ok := info.Selections[se]
-			if !ok {
-				return true
-			}
-			recv := sel.Recv()
+			recv := info.Selections[se].Recv()
 			if pt, ok := recv.(*types.Pointer); ok {
 				recv = pt.Elem()
 			}
 			if !types.Identical(recv, st) {
-				return true
-			}
-			if mt := info.TypeOf(ix.X); mt == nil {
-				return true
-			} else if _, isMap := mt.Underlying().(*types.Map); !isMap {
 				return true
 			}
 			n++
@@ -217,7 +286,7 @@ func onceRegistryKey(c *Ctx, rule string) {
 			default:
 				why = "keyed by " + types.ExprString(key)
 			}
-			c.check(why == "", rule, fmt.Sprintf("%s|%s[…]|keyed-by-handle-identity", funcKey(p, fd), sel.Obj().Name()), c.pos(ix.Pos()), "the registry is keyed by the handle pointer",
+			c.check(why == "", rule, fmt.Sprintf("%s|%s[…]|keyed-by-handle-identity", funcKey(p, fd), se.Sel.Name), c.pos(ix.Pos()), "the registry is keyed by the handle pointer",
 				fd.Name.Name+": the once-handle registry is "+why)
 			return true
 		})
@@ -312,4 +381,60 @@ func renderStateSingle(c *Ctx, rule string) {
 	c.count("render_state_stores", nstore)
 	c.count("render_state_copies", ncopy)
 	c.floor(rule, 2)
+}
+
+// stateMapOf: the field selector of the map that the indexed expression x denotes — recv.f itself, recv.m() where the
+// method m returns a field of its receiver (lazy accessor), or h(&recv.f) where a helper is handed the field's address
+// (it allocates the map on first use and returns it). nil when x is none of these.
+func stateMapOf(p *packages.Package, x ast.Expr) *ast.SelectorExpr {
+	info := p.TypesInfo
+	isMapField := func(e ast.Expr) *ast.SelectorExpr {
+		se, ok := ast.Unparen(e).(*ast.SelectorExpr)
+		if !ok {
+			return nil
+		}
+		sel, ok := info.Selections[se]
+		if !ok || sel.Kind() != types.FieldVal {
+			return nil
+		}
+		if _, isMap := sel.Obj().Type().Underlying().(*types.Map); !isMap {
+			return nil
+		}
+		return se
+	}
+	x = ast.Unparen(x)
+	if se := isMapField(x); se != nil {
+		return se
+	}
+	call, ok := x.(*ast.CallExpr)
+	if !ok {
+		return nil
+	}
+	for _, a := range call.Args {
+		if u, ok := ast.Unparen(a).(*ast.UnaryExpr); ok && u.Op == token.AND {
+			if se := isMapField(u.X); se != nil {
+				return se
+			}
+		}
+	}
+	if len(call.Args) == 0 {
+		if fn := calleeOf(info, call); fn != nil {
+			for _, afd := range allFuncDecls(p) {
+				if info.Defs[afd.Name] != types.Object(fn) || afd.Recv == nil || afd.Body == nil {
+					continue
+				}
+				var out *ast.SelectorExpr
+				ast.Inspect(afd.Body, func(m ast.Node) bool {
+					if ret, ok := m.(*ast.ReturnStmt); ok && len(ret.Results) == 1 {
+						if se := isMapField(ret.Results[0]); se != nil {
+							out = se
+						}
+					}
+					return true
+				})
+				return out
+			}
+		}
+	}
+	return nil
 }
